@@ -442,8 +442,17 @@ impl<
                 // `America/Sao_Paulo`.) And thus, this would return `None`.
                 // So if it does, we pretend as if the POSIX time zone doesn't
                 // exist.
+                //
+                // The POSIX TZ only applies after the last transition though.
+                // Its own idea of the previous transition can precede the
+                // last transition in the TZif data (e.g., when `zic` emits a
+                // final no-op transition to anchor the TZ string), in which
+                // case the last transition in the TZif data is the answer.
                 if let Some(trans) = posix_tz.previous_transition(ts) {
-                    return Some(trans);
+                    if trans.timestamp().as_second() > self.timestamps()[index]
+                    {
+                        return Some(trans);
+                    }
                 }
             }
             index
